@@ -266,6 +266,23 @@ func run(id string, c cfg, tier string, seed int64, replay string) int {
 		}
 	}
 	viols = append(viols, fuzzViol...)
+	// suspected hangs are re-run alone, in a fresh process with a 120 s limit; only a second expiry counts
+	if replay == "" {
+		kept := viols[:0]
+		for _, v := range viols {
+			if !v.Hang {
+				kept = append(kept, v)
+				continue
+			}
+			if confirmHang(bin, pkgDir, partDir, v.Replay) {
+				kept = append(kept, v)
+			} else {
+				notes = append(notes, "suspected hang not reproduced in isolation (dropped): "+v.Replay)
+				os.Remove(v.Replay)
+			}
+		}
+		viols = kept
+	}
 	sort.Strings(knownOrder)
 
 	allExh := len(exh) > 0
@@ -365,6 +382,36 @@ func run(id string, c cfg, tier string, seed int64, replay string) int {
 		return 2
 	}
 	return 0
+}
+
+// confirmHang replays one suspected hang alone with a 120 s watchdog.
+func confirmHang(bin, pkgDir, partDir, replay string) bool {
+	out := filepath.Join(partDir, "hangcheck.json")
+	os.Remove(out)
+	p := exec.Command(bin, "-test.run", "^TestCheck$", "-test.timeout", "400s", "-test.count", "1")
+	p.Dir = pkgDir
+	p.Env = append(os.Environ(), "VERIF_TIER=quick", "VERIF_SHARD=0", "VERIF_NSHARDS=1", "VERIF_OUT="+out,
+		"VERIF_REPLAY="+replay, "VERIF_DIR="+root(), "VERIF_HANG_LIMIT=120")
+	done := make(chan error, 1)
+	if err := p.Start(); err != nil {
+		return true
+	}
+	go func() { done <- p.Wait() }()
+	select {
+	case <-done:
+	case <-time.After(300 * time.Second):
+		p.Process.Kill()
+		return true
+	}
+	b, err := os.ReadFile(out)
+	if err != nil {
+		return true
+	}
+	var pt hx.Part
+	if json.Unmarshal(b, &pt) != nil {
+		return true
+	}
+	return len(pt.Violations) > 0
 }
 
 // runFuzz runs one native fuzz target for a bounded time from a fresh cache.
